@@ -8,6 +8,7 @@ import OidcModel.Proofs.C01
 import OidcModel.Proofs.C02
 import OidcModel.Generated.RequestObject
 import OidcModel.Proofs.C04
+import OidcModel.Proofs.C14Reuse
 namespace C14
 open Go Gen Hand
 
@@ -15,23 +16,17 @@ theorem clientKeys_eq (registry : List (String × JWK)) (id : String) :
     Hand.jwtProfileKeySet registry id = clientKeys registry id := rfl
 
 theorem subjectIsIssuer_ok {now c} : SubjectIsIssuer now c = .ok () ↔ c.iss = c.sub := by
-  unfold SubjectIsIssuer Claims.Issuer Claims.Subject Go.ok; split <;> simp_all
+  unfold SubjectIsIssuer Claims.Issuer Claims.Subject Go.ok; go_leaf
 
-/-- every accepting path of VerifyJWTAssertion (default key set = storage registry) -/
+/-- every accepting path of VerifyJWTAssertion (default key set = storage registry); from the characterisation lemma
+    `verifyJWTAssertion_ok` (Proofs/C14Reuse.lean) - the regenerated definition is not unfolded here -/
 theorem verifyJWTAssertion_paths {now t v c} (hks : v.keySet.kind = .nilSet) (h : VerifyJWTAssertion now t v = .ok c) :
     ∃ p c0, ParseToken now t = .ok (p, c0) ∧ CheckAudience now c0 v.Issuer = .ok () ∧ CheckExpiration now c0 v.Offset = .ok () ∧
       CheckIssuedAt now c0 v.MaxAgeIAT v.Offset = .ok () ∧ applySubjectCheck (SubjectIsIssuer now) v.CheckSubject c0 = .ok () ∧
       CheckSignature now t p c0 [] (clientKeys v.Storage c0.iss) = .ok c := by
-  unfold VerifyJWTAssertion at h
-  simp only [] at h
-  repeat' (split at h <;> try (simp at h))
-  all_goals (
-    subst h
-    first
-      | (refine ⟨_, _, by assumption, by assumption, by assumption, by assumption, by assumption, ?_⟩
-         have hn : Go.isNil v.keySet = true := by simp [Go.isNil, Nilable.isNil, hks]
-         simp_all [Go.nil, Go.HasNil.nilv, Claims.Issuer, clientKeys_eq])
-      | (exfalso; simp_all [Go.isNil, Nilable.isNil]))
+  obtain ⟨p, c0, h1, h2, h3, h4, h5, h6⟩ := verifyJWTAssertion_ok.1 h
+  have hn : Go.isNil v.keySet = true := by simp [Go.isNil, Nilable.isNil, hks]
+  exact ⟨p, c0, h1, h2, h3, h4, h5, by simpa [assertionKeys, hn, clientKeys_eq] using h6⟩
 
 /-- C14: an accepted assertion is signed with a key the storage holds for the client named as
     issuer, targets this provider, is within its time window and (default check) has sub = iss -/
@@ -72,24 +67,32 @@ theorem c14_assertion_sound {now t v c} (hks : v.keySet.kind = .nilSet) (h : Ver
   simp [hfind]
 
 
+/-- CHARACTERISATION (shape-independent) of the regenerated `AuthorizePrivateJWTKey` of the token-endpoint model -/
+theorem genAuthorizePrivateJWTKey_ok {now t p c} : AuthorizePrivateJWTKey now t p = .ok c ↔
+    ∃ j, VerifyJWTAssertion now t p.JWTProfileVerifier = .ok j ∧ p.store.GetClientByClientID j.iss = .ok c ∧ c.auth = Const.AuthMethodPrivateKeyJWT := by
+  unfold AuthorizePrivateJWTKey Provider.Storage Claims.Issuer OPClient.AuthMethod
+  go_leaf
+
 /-- the authenticated identity of `private_key_jwt` is exactly the assertion's issuer, and only for
     clients registered for that method -/
 theorem c14_private_key_client {now t p c} (h : AuthorizePrivateJWTKey now t p = .ok c) :
     ∃ j, VerifyJWTAssertion now t p.JWTProfileVerifier = .ok j ∧ p.store.GetClientByClientID j.iss = .ok c ∧
       c.auth = Const.AuthMethodPrivateKeyJWT ∧
       assertionOK p.issuer p.jwtMaxAgeIAT p.jwtOffset true p.store.keyRegistry t now j = none := by
-  unfold AuthorizePrivateJWTKey at h
-  simp only [Provider.Storage, Claims.Issuer, OPClient.AuthMethod] at h
-  split at h; · simp at h
-  rename_i j hj
-  split at h; · simp at h
-  rename_i c' hc
-  by_cases ha : (c'.auth != Const.AuthMethodPrivateKeyJWT) = true
-  · simp [ha] at h
-  simp [ha] at h; subst h
-  refine ⟨j, hj, hc, by simpa using ha, ?_⟩
+  obtain ⟨j, hj, hc, ha⟩ := genAuthorizePrivateJWTKey_ok.1 h
+  refine ⟨j, hj, hc, ha, ?_⟩
   have := c14_assertion_sound (v := p.JWTProfileVerifier) (by rfl) hj
   simpa [Provider.JWTProfileVerifier] using this
+
+/-- CHARACTERISATION (shape-independent) of the regenerated `ParseRequestObject` -/
+theorem parseRequestObject_ok {now a st issuer a'} : ParseRequestObject now a st issuer = .ok a' ↔
+    ∃ p ro0 ro, ParseToken now a.RequestToken = .ok (p, ro0) ∧
+      (ro0.clientID = "" ∨ ro0.clientID = a.ClientID) ∧ (ro0.ro.ResponseType = "" ∨ ro0.ro.ResponseType = a.ResponseType) ∧
+      ro0.iss = ro0.clientID ∧ issuer ∈ ro0.aud ∧
+      CheckSignature now a.RequestToken p ro0 [] (jwtProfileKeySetS st ro0.iss) = .ok ro ∧
+      a' = CopyRequestObjectToAuthRequest now a ro := by
+  unfold ParseRequestObject Claims.ClientID Claims.ResponseType Claims.Issuer Claims.Audience Go.contains Go.nil HasNil.nilv instHasNilList
+  go_leaf
 
 /-- what an accepted request object must have been: a token signed by a key registered for the client
     it names as issuer, the issuer equal to its client_id claim, this provider in the audience, and
@@ -100,28 +103,8 @@ theorem c14_request_object_sound {now a st issuer a'} (h : ParseRequestObject no
       ro0.iss = ro0.clientID ∧ issuer ∈ ro0.aud ∧
       C02.acceptedOK [] (clientKeys st.keyRegistry ro0.iss) a.RequestToken ro = none ∧
       a' = CopyRequestObjectToAuthRequest now a ro := by
-  unfold ParseRequestObject at h
-  simp only [Claims.ClientID, Claims.ResponseType, Claims.Issuer, Claims.Audience] at h
-  split at h; · simp at h
-  rename_i p ro0 hp
-  by_cases h1 : (ro0.clientID != "" && ro0.clientID != a.ClientID) = true
-  · simp [h1] at h
-  by_cases h2 : (ro0.ro.ResponseType != "" && ro0.ro.ResponseType != a.ResponseType) = true
-  · simp [h1, h2] at h
-  by_cases h3 : (ro0.iss != ro0.clientID) = true
-  · simp [h1, h2, h3] at h
-  by_cases h4 : (!Go.contains ro0.aud issuer) = true
-  · simp [h1, h2, h3, h4] at h
-  simp only [h1, h2, h3, h4, Bool.false_eq_true, if_false] at h
-  cases hs : CheckSignature now a.RequestToken p ro0 Go.nil (jwtProfileKeySetS st ro0.iss) with
-  | error e => simp [hs] at h
-  | ok ro =>
-    simp only [hs] at h
-    simp at h
-    have hsound := C02.parse_and_signature_sound hp (by simpa [Go.nil, Go.HasNil.nilv] using hs)
-    refine ⟨p, ro0, ro, hp, ?_, ?_, by simpa using h3, by simpa [Go.contains] using h4, ?_, h.symm⟩
-    · simp at h1; by_cases hc : ro0.clientID = "" <;> simp_all
-    · simp at h2; by_cases hc : ro0.ro.ResponseType = "" <;> simp_all
-    · simpa [jwtProfileKeySetS, clientKeys_eq] using hsound.1
+  obtain ⟨p, ro0, ro, hp, h1, h2, h3, h4, hs, ha⟩ := parseRequestObject_ok.1 h
+  have hsound := C02.parse_and_signature_sound hp hs
+  exact ⟨p, ro0, ro, hp, h1, h2, h3, h4, by simpa [jwtProfileKeySetS, clientKeys_eq] using hsound.1, ha⟩
 
 end C14
